@@ -434,6 +434,15 @@ def correspondence_align(ck) -> list[dict]:
         mx2 = rng.choice([None, 1, 2, 5, 8, 10, 100])
         out2 = st_shard_py(ts, mx2)
         strows.append((sizes, mx2, [[t.nbytes for t in s] for s in out2]))
+    # shard file names: model shard_name(stem, ext) vs get_shard_filename(stem + ext)
+    from onnx_ir._shard_filename import get_shard_filename
+    nrows = []
+    for stem in ["m", "dir/sub/model", "a-b_c", "x9"]:
+        for ext in ["", ".data", ".v1.data", ".safetensors", ".a.b.c"]:
+            for total in [1, 2, 3, 11, 99999, 100000, 123456]:
+                for idx in sorted({1, 2, total // 2 + 1, total}):
+                    if idx <= total:
+                        nrows.append((stem, ext, idx, total, get_shard_filename(stem + ext, idx, total)))
     zl = lambda l: clist(cZ(x) for x in l)  # noqa: E731
     text = CASE_HEADER + (
         "Definition arows : list (Z * Z * option Z * Z * Z) :=\n  "
@@ -454,6 +463,17 @@ def correspondence_align(ck) -> list[dict]:
         "Eval vm_compute in (failing aok arows ++ map (fun i => 100000 + i)%nat (failing vok vrows)\n"
         "   ++ map (fun i => 200000 + i)%nat (failing sok srows) ++ map (fun i => 300000 + i)%nat (failing stok strows)).\n")
     failing = ck.coq_failing(text, "cases_fn")
+    ntext = CASE_HEADER + (
+        "Definition nrows : list (list N * list N * Z * Z * list N) :=\n  "
+        + clist(f"({common.cstr(a)}, {common.cstr(b)}, {cZ(c)}, {cZ(d)}, {common.cstr(e)})" for a, b, c, d, e in nrows) + ".\n"
+        "Definition nok (r : list N * list N * Z * Z * list N) : bool :=\n"
+        "  let '(stem, ext, i, t, e) := r in list_eqb N.eqb (shard_name stem ext (Z.to_nat i) (Z.to_nat t)) e.\n"
+        "Eval vm_compute in (failing nok nrows).\n")
+    nfail = ck.coq_failing(ntext, "cases_names")
+    ck.count(len(nrows))
+    ck.hist("function_grid", "get_shard_filename", len(nrows))
+    for i in nfail[:3]:
+        ck.broken("correspondence:get_shard_filename", json.dumps(nrows[i]))
     ck.count(len(rows) + len(vrows) + len(srows) + len(strows))
     ck.hist("function_grid", "align_offset", len(rows))
     ck.hist("function_grid", "validate_write_options", len(vrows))
